@@ -9,7 +9,9 @@ RULE = ("cases: op sequences on the real CTxMemPool: single submissions (with re
         "eviction), package submissions, removals (recursive and for-block), direct queries of SingleTRUCChecks / PackageTRUCChecks "
         "with virtual sizes TRUC_MAX_VSIZE-1/0/+1 and TRUC_CHILD_MAX_VSIZE-1/0/+1 (explicit and through real transaction weights), "
         "version 2/3 mixes, 0/1/2 mempool parents, parents with 0/1/2 children, grandparents, in-package parents/siblings/children; "
-        "histories with forced additions (reorg-like states: several children, chains of 3) are compared but not judged. "
+        "histories with forced additions (reorg-like states: several children, chains of 3) are compared but not judged; "
+        "limits cases: a second real CTxMemPool configured with cluster_count 1-8 and cluster_size 300-1000 vB: chains, stars, merges of "
+        "clusters by one transaction, total weight at the limit -4/0/+4, CheckPolicyLimits queries and limit-checked additions, removals. "
         "non-trivial = at least 3 ops; distinct = distinct case lines")
 ASSUMPTIONS = ["acceptance applies exactly the answers of SingleTRUCChecks / PackageTRUCChecks (the other acceptance rules only reject more); "
                "the driver applies them on the real mempool the way PreChecks / ReplacementChecks do",
@@ -269,9 +271,101 @@ def gen_lim(rng, tier):
     return cases
 
 
+def gen_acc3(rng, tier):
+    """end-to-end: version-2/3 transactions through the real ProcessTransaction / ProcessNewPackage (driver of C29, mode accept3).
+    No output is spent by two transactions, so no sibling-eviction candidate and no mempool conflict arises (no RBF)."""
+    from props import C29 as PK
+    P = core.parse_params()
+    MAXV = P["MPP_TRUC_MAX_VSIZE"]; CHV = P["MPP_TRUC_CHILD_MAX_VSIZE"]
+    cases = []
+
+    def sized(a, b, target):
+        """set nout / witness length of built[b] (1 input) so that its vsize is target"""
+        for nout in range(1, 260):
+            for wit in range(1, 80):
+                if (PK.acc_weight(1, nout, wit) + 3) // 4 == target and PK.acc_weight(1, nout, wit) % 4 == 0:
+                    a.built[b][3] = nout; a.built[b][5] = wit; return True
+        return False
+
+    # 1 parent 1 child: versions x child size x how it is submitted
+    for pv in (2, 3):
+        for cv in (2, 3):
+            for csz in (None, CHV, CHV + 1, MAXV, MAXV + 1):
+                for how in ("pkg", "pkg_lowfee_parent", "parent_in_pool", "child_alone_after"):
+                    a = PK.A(rng)
+                    par = a.new([a.coin()], nout=2, ver=pv, fee=0 if how == "pkg_lowfee_parent" else 10000)
+                    ch = a.new([("p", par, 0)], nout=1, ver=cv, fee=60000)
+                    if csz is not None and not sized(a, ch, csz): continue
+                    if how in ("pkg", "pkg_lowfee_parent"): a.pkg = [par, ch]
+                    if how == "parent_in_pool": a.pre = [par]; a.pkg = [par, ch]
+                    if how == "child_alone_after": a.pre = [par]; a.pkg = [ch]
+                    cases.append(a.line())
+    # parent sizes
+    for psz in (MAXV, MAXV + 1):
+        for how in ("pkg", "single"):
+            a = PK.A(rng); par = a.new([a.coin()], ver=3, fee=60000)
+            if not sized(a, par, psz): continue
+            ch = a.new([("p", par, 0)], ver=3, fee=60000)
+            if how == "pkg": a.pkg = [par, ch]
+            else: a.pkg = [par]
+            cases.append(a.line())
+    # two parents / grandparent / three generations in one package, every version mix, low-fee parents pushed into package evaluation
+    for v1 in (2, 3):
+        for v2 in (2, 3):
+            for vc in (2, 3):
+                for low in (False, True):
+                    a = PK.A(rng)
+                    p1 = a.new([a.coin()], ver=v1, fee=0 if low else 10000); p2 = a.new([a.coin()], ver=v2, fee=0 if low else 10000)
+                    c = a.new([("p", p1, 0), ("p", p2, 0)], ver=vc, fee=80000)
+                    a.pkg = [p1, p2, c]; cases.append(a.line())
+                    a = PK.A(rng)
+                    g = a.new([a.coin()], ver=v1, fee=10000); p = a.new([("p", g, 0)], ver=v2, fee=0 if low else 10000)
+                    c = a.new([("p", p, 0)], ver=vc, fee=80000)
+                    a.pre = [g]; a.pkg = [p, c]; cases.append(a.line())
+                    a = PK.A(rng)
+                    g = a.new([a.coin()], ver=v1, fee=10000); p = a.new([("p", g, 0)], ver=v2, fee=10000)
+                    c = a.new([("p", p, 0)], ver=vc, fee=80000)
+                    a.pre = [g, p]; a.pkg = [c]; cases.append(a.line())
+    nrand = 500 if tier == "quick" else 15000
+    for _ in range(nrand):
+        a = PK.A(rng)
+        bias3 = rng.choice([0.5, 0.8, 1.0])
+        ver = lambda: 3 if rng.random() < bias3 else 2
+        free = []          # unspent outputs of built transactions, each handed out once
+
+        def inp():
+            if free and rng.random() < 0.55:
+                o = free.pop(rng.randrange(len(free)))
+                # a transaction gets at most one child: no sibling-eviction candidate can arise
+                free[:] = [x for x in free if x[1] != o[1]]
+                return o
+            return a.coin() if len(a.free) > 8 else ("x", rng.randrange(50))
+
+        outside = []
+        for _k in range(rng.choice([0, 1, 2, 3])):
+            b = a.new([inp()], nout=rng.choice([1, 2]), ver=ver(), fee=10000)
+            free += [("p", b, n) for n in range(a.built[b][3])]
+            outside.append(b)
+        npar = rng.choice([1, 1, 2, 3])
+        pars = []
+        for _k in range(npar):
+            b = a.new([inp()] + ([inp()] if rng.random() < 0.2 else []), nout=2, ver=ver(), fee=rng.choice([0, 0, 10000, 10000]))
+            pars.append(b)
+        cins = [("p", q, 0) for q in pars]
+        if rng.random() < 0.2: cins.append(inp())
+        ch = a.new(cins, nout=1, ver=ver(), fee=rng.choice([10000, 90000, 90000]))
+        if rng.random() < 0.15: sized(a, ch, rng.choice([CHV, CHV + 1])) if len(cins) == 1 else None
+        a.pkg = pars + [ch]
+        a.pre = list(outside) + [q for q in pars if rng.random() < 0.2]
+        cases.append(a.line())
+    return cases
+
+
 TIES = [Tie("truc_ops", "tie/drivers/truc_drv.cpp", "Extract_Truc.v", "truc_driver.ml", gen,
             predicate="driver", nontrivial=lambda c: True),
         Tie("cluster_limits", "tie/drivers/truc_drv.cpp", "Extract_Truc.v", "truc_driver.ml", gen_lim, mode="limits",
+            predicate="driver", nontrivial=lambda c: True),
+        Tie("truc_accept", "tie/drivers/package_drv.cpp", "Extract_Package.v", "package_driver.ml", gen_acc3, mode="accept3",
             predicate="driver", nontrivial=lambda c: True)]
 
 LEVEL_TEXT = ("Coq theorems over all mempools and all op sequences: what SingleTRUCChecks / PackageTRUCChecks accept implies (size caps, "
